@@ -59,7 +59,14 @@ func c03cStack(needle string) string {
 	return strings.Join(out, "\n--\n")
 }
 
+// c03cBlocked is set once the registry lock was found dead: nothing else can run in this process.
+var c03cBlocked string
+
 func c03cRun(t vh.Fataler, rec *vh.Rec, e *aEnv, c c03cCase) {
+	if c03cBlocked != "" {
+		rec.Violation(t, "handler-stuck", c, "%s", c03cBlocked)
+		return
+	}
 	cj.VerifResetRegistry(e.rm)
 	// standing registrations on the probed phantom
 	for i := 0; i < 9; i++ {
@@ -220,7 +227,18 @@ func c03cRun(t vh.Fataler, rec *vh.Rec, e *aEnv, c c03cCase) {
 	start.Done()
 	wg.Wait()
 	close(stop)
-	churnWG.Wait()
+	{
+		done := make(chan struct{})
+		go func() { churnWG.Wait(); close(done) }()
+		select {
+		case <-done:
+		case <-time.After(60 * time.Second):
+			rec.Case(true, vh.Digest(c), c, "registry-churn")
+			c03cBlocked = fmt.Sprintf("the registry is blocked: the goroutine that registers / uses / expires registrations did not get the registry lock within 60 s after the wave, and handlers are blocked with it:\n%s\n--\n%s", c03cStack("handleNewTCPConn"), c03cStack("RegisteredDecoys"))
+			rec.Violation(t, "handler-stuck", c, "%s", c03cBlocked)
+			return
+		}
+	}
 	classes := []string{fmt.Sprintf("probers:%d", len(probes)), fmt.Sprintf("clients:%d", len(clients))}
 	if c.Churn {
 		classes = append(classes, "registry-churn")
